@@ -294,7 +294,7 @@ func TestC05RRHealthHistory(t *testing.T) {
 		var load loadPlan
 		var obs obsPlan
 		rapid.SyncTest(rt, func(rt *rapid.T) {
-			p, err := newPool("round_robin", lab.Ones(n0))
+			p, err := newPool("round_robin", rrWeights(rt, n0))
 			if err != nil {
 				rt.Fatalf("harness: %v", err)
 			}
